@@ -45,6 +45,14 @@ SIMMON == [Bp("SIMMON", C1,
               Sd("C", "LAB", "Market"), Sd("C", "GOOD", "Market"), Sd("C", "MON", "MoneyMarket") >>, {2, 3, 5, 6, 7})
         EXCEPT !.freeq = {3, 7}, !.exo = << Exo(1, "DEM_GOOD") >>]
 
+\* the Treasury itself issues the money (no central bank); the Treasury class declares a money demand of its own
+SIMTRE == [Bp("SIMTRE", C1,
+           << Sd("C", "TRE", "Treasury"), Sd("C", "HH", "Household"),
+              Sd("C", "BUS", "FixedMarginBusiness"), [Sd("C", "TF", "TaxFlow") EXCEPT !.taxto = "TRE"],
+              Sd("C", "LAB", "Market"), Sd("C", "GOOD", "Market"), [Sd("C", "MON", "MoneyMarket") EXCEPT !.issuer = "TRE"] >>,
+           {1, 2, 3, 7})
+        EXCEPT !.freeq = {1, 7}, !.exo = << Exo(1, "DEM_GOOD") >>]
+
 \* deposits issued by a consolidated government, household allocates between DEP and MON
 SIMDEP == [Bp("SIMDEP", C1,
            << Sd("C", "GOV", "ConsolidatedGovernment"), [Sd("C", "HH", "Household") EXCEPT !.aw = << "DEP" >>],
@@ -116,6 +124,8 @@ IMPORTRES == [TwoCountry("IMPORTRES") EXCEPT !.freeq = {9}, !.free = {3, 9}, !.e
 NOEXT3 == [IMPORTRES EXCEPT !.name = "NOEXT3", !.external = "none", !.freeq = {}, !.free = {9}, !.wellformed = FALSE]
 \* a single country plus an (unused) external sector created last: the country list grows after construction began
 SIMX == [SIM EXCEPT !.name = "SIMX", !.external = "last", !.freeq = {3, 6}, !.free = {3, 5, 6}]
+\* the same with names requested during construction (a gift variable tied to the household's own lagged wealth)
+SIMXG == [SIMX EXCEPT !.name = "SIMXG", !.sectors[2].gift = TRUE]
 \* ill-formed: cross-currency flow / supplier without an external sector
 NOEXT1 == [TwoCountry("NOEXT1") EXCEPT !.freeq = {}, !.free = {8}, !.flows = << Flow(2, 8, "GIFT", TRUE, TRUE) >>, !.wellformed = FALSE]
 NOEXT2 == [TwoCountry("NOEXT2") EXCEPT !.freeq = {}, !.free = {8},
@@ -304,6 +314,15 @@ TWOBUSX == [TWOBUS EXCEPT !.name = "TWOBUSX", !.sectors[5].kind = "FixedMarginBu
 \* local variables spelled like numeric words (an inflation rate INF, a rate nan) and variables defined as exactly them
 SIMINF == [SIM EXCEPT !.name = "SIMINF", !.freeq = {2, 5}, !.sectors[2].params = << "INF", "EXP_INF", "nan", "EXP_nan", "Infinity", "EXP_Infinity" >>]
 
+\* sector codes that differ in letter case only (a business coded Good next to the market GOOD), and a second business
+\* that takes a share of that market by rule
+CASECODES == [Bp("CASECODES", C1,
+           << Sd("C", "GOV", "ConsolidatedGovernment"), Sd("C", "HH", "Household"),
+              Sd("C", "Good", "FixedMarginBusiness"), Sd("C", "TF", "TaxFlow"),
+              Sd("C", "LAB", "Market"), Sd("C", "GOOD", "Market"), Sd("C", "BUS2", "FixedMarginBusiness") >>, {3, 6, 7})
+        EXCEPT !.freeq = {3, 6}, !.exo = << Exo(1, "DEM_GOOD") >>,
+               !.suppliers = << [mkt |-> 6, sup |-> 7, rule |-> TRUE], [mkt |-> 6, sup |-> 3, rule |-> FALSE] >>]
+
 \* the business also buys its own good (intermediate consumption): one sector on both sides of a market
 SELFBUY == [SIM EXCEPT !.name = "SELFBUY", !.freeq = {3, 6}, !.sectors[3].extra = << "DEM_GOOD" >>,
                        !.exo = << Exo(1, "DEM_GOOD"), Exo(3, "DEM_GOOD") >>]
@@ -323,6 +342,6 @@ TWOCAPS == [Bp("TWOCAPS", C1,
               Sd("C", "TF", "TaxFlow"), Sd("C", "LAB", "Market"), Sd("C", "GOOD", "Market") >>, {3, 4, 5, 8})
         EXCEPT !.freeq = {4, 5}, !.exo = << Exo(1, "DEM_GOOD") >>, !.wellformed = FALSE]
 
-AllBlueprints == {IMPORT2, ROWAID, TAXOWN, GOLDCBIMP, SIMINF, SELFBUY, TAXBUS, TWOCAPS, RINGFAN, SIMPLAIN, SIMBOOK, SIMEX1BOOK, PCBOOK, REGBOOK, REG2BOOK, MULTIX, TRIREG, TWOBUSX, RING3, REG2, GOLDCB, TWOBUS, TWOGIFTS, SIMBOND, IMPORTRES, NOEXT3, SIMX, SIMR, SIMEXR, JOIN2, JOIN2X, GOLD2, GOLDNOEXT, SIM, SIMEX, SIMCAP, SIMMARGIN, SIMMON, SIMDEP, PC, MULTI, FED, GIFT, GIFT2, IMPORT, NOEXT1, NOEXT2, NOSUP, TWOSUP}
+AllBlueprints == {SIMXG, CASECODES, SIMTRE, IMPORT2, ROWAID, TAXOWN, GOLDCBIMP, SIMINF, SELFBUY, TAXBUS, TWOCAPS, RINGFAN, SIMPLAIN, SIMBOOK, SIMEX1BOOK, PCBOOK, REGBOOK, REG2BOOK, MULTIX, TRIREG, TWOBUSX, RING3, REG2, GOLDCB, TWOBUS, TWOGIFTS, SIMBOND, IMPORTRES, NOEXT3, SIMX, SIMR, SIMEXR, JOIN2, JOIN2X, GOLD2, GOLDNOEXT, SIM, SIMEX, SIMCAP, SIMMARGIN, SIMMON, SIMDEP, PC, MULTI, FED, GIFT, GIFT2, IMPORT, NOEXT1, NOEXT2, NOSUP, TWOSUP}
 QuickBlueprints == { [b EXCEPT !.free = b.freeq] : b \in AllBlueprints }
 =============================================================================
